@@ -116,7 +116,9 @@ class Spec(object):
         self._schema = self.get_schema(includes=None, resolve_specs=False)
         self._meta_schema = self.get_meta_schema()
 
-        if not spec:
+        # An empty dict or list is a spec with no property or item, e.g. a task
+        # transition without condition, publish and next task, which the schema allows.
+        if not spec and not isinstance(spec, (dict, list)):
             raise ValueError("The spec cannot be type of None.")
 
         self.spec = (
@@ -143,7 +145,7 @@ class Spec(object):
         property_specs = {k: v for k, v in schema.get("properties", {}).items() if isspec(v)}
 
         for name, spec_cls in property_specs.items():
-            if self.spec.get(name):
+            if self.spec.get(name) or isinstance(self.spec.get(name), (dict, list)):
                 setattr(self, name, spec_cls(self.spec.get(name), member=True))
 
         # Process pattern properties (regex) defined in the schema.
@@ -153,7 +155,7 @@ class Spec(object):
         # regex_property_specs are member=True so they don't use meta_schema
         for pattern, spec_cls in regex_property_specs.items():
             for name, value in self.spec.items():
-                if re.match(pattern, name) and value:
+                if re.match(pattern, name) and (value or isinstance(value, (dict, list))):
                     setattr(self, name, spec_cls(value, member=True))
 
     def copy(self):
